@@ -119,7 +119,11 @@ Inductive ev :=
 
 
 (* the ways a program ends *)
-Inductive route := RReturn | RExit | RExitInBlock | RThrow | RExitStatus | RExitAfterThread.
+Inductive route := RReturn | RExit | RExitInBlock | RThrow | RExitStatus | RExitAfterThread
+| RSigUncaught       (* exception_signals(); a signal exception nobody catches (raise outside any try) *)
+| RSigCaughtReturn   (* a signal exception caught in a try-block, then normal return *)
+| RSigCaughtThrow    (* a signal exception caught, later an ordinary uncaught throw *)
+| RSigCaughtExit.    (* a signal exception caught, later exit() from a nested call *)
 
 Section Machine.
   Variables rem_fix sweep_fix defer_fix : bool.
@@ -282,9 +286,17 @@ Section Machine.
      tools/genx_life.py reads both off the macro text.  Every route of the model ends the process
      through exit(): returning from main, exit() from a nested call, exit() inside a with/try block,
      an uncaught throw (Exception_Error calls exit(EXIT_FAILURE)), exit with a non-zero status,
-     exit after a worker thread has come and gone. *)
-  Definition returns (r : route) : bool := match r with RReturn => true | _ => false end.
-  Definition terminate (reg_atexit call_after : bool) (r : route) (order : list id) (s : st) : st :=
+     exit after a worker thread has come and gone, and the same after a signal was turned into an
+     exception (exception_signals). *)
+  Definition returns (r : route) : bool :=
+    match r with RReturn | RSigCaughtReturn => true | _ => false end.
+  (* routes that end in Exception_Error (uncaught exception) *)
+  Definition via_error (r : route) : bool :=
+    match r with RThrow | RSigUncaught | RSigCaughtThrow => true | _ => false end.
+  (* err_exit — Exception_Error ends in exit() on every path (no _Exit / abort / quick_exit / return
+     before it): only then do the exit handlers, hence the teardown, run on those routes *)
+  Definition terminate (reg_atexit call_after err_exit : bool) (r : route) (order : list id) (s : st) : st :=
+    if via_error r && negb err_exit then s else
     let s1 := if call_after && returns r then step s (ETeardown order) else s in
     if reg_atexit then step s1 (ETeardown order) else s1.
 
